@@ -309,8 +309,15 @@ def build_wa():
     return out
 
 
+CHILD_TIMEOUT_SCALE = int(os.environ.get("VERIF_TIMEOUT_SCALE", "3"))
+
+
 def run_child(args, timeout=60, input=None, cwd=None, env=None, binary=False):
-    """Run a child; returns (rc, stdout, stderr, timed_out). rc None on timeout."""
+    """Run a child; returns (rc, stdout, stderr, timed_out). rc None on timeout.
+
+    The limits given by the callers are sized for an idle machine; they are tripled so that a loaded
+    machine does not turn a slow child into a reported non-termination (a real hang only costs more time)."""
+    timeout = timeout * CHILD_TIMEOUT_SCALE
     try:
         p = subprocess.run(args, input=input, capture_output=True, timeout=timeout, cwd=cwd,
                            env=env, text=not binary)
